@@ -248,6 +248,39 @@ theorem continuation (p : Padder) (hv : Valid p) (st : PadState) (hflag : st.pad
   have hone : one = _ := hc
   refine ⟨by rw [hr1], ?_, ?_, ?_⟩ <;> rw [hone] <;> simp only [r2, hr1, hd]
 
+/-- **continuation with an empty last piece** (schemes that always pad: bit, PKCS#7, X9.23, MD, SHA, BLAKE):
+    block-aligned non-empty data fed with `padding=False`, then a final call on the empty string, emits the same
+    blocks with the same bit counters (the padding-only block reports 0) and leaves the same final state as ONE
+    call on the data; neither raises.  (The pad flag observed at the last data block differs: it is emitted before
+    the final call.  Zero padding and the unpadded scheme are excluded: their last full block is already out, so
+    the empty final call pads/emits an empty piece of its own.) -/
+theorem continuation_empty (p : Padder) (hv : Valid p) (hap : AlwaysPads p.scheme) (st : PadState)
+    (hflag : st.padflag = false) (m1 : List Nat) (hm : Bytes m1) (hne : m1 ≠ [])
+    (hm1 : (8 * m1.length) % p.blocksize = 0) :
+    let r1 := p.iterblocks st m1 none false
+    let r2 := p.iterblocks r1.final [] none true
+    let one := p.iterblocks st m1 none true
+    r1.err = none ∧ r2.err = none ∧ one.err = none ∧
+    one.yields.map (·.1) = r1.yields.map (·.1) ++ r2.yields.map (·.1) ∧
+    one.yields.map (·.2.bitcnt) = r1.yields.map (·.2.bitcnt) ++ r2.yields.map (·.2.bitcnt) ∧
+    one.final = r2.final := by
+  intro r1 r2 one
+  obtain ⟨n1, hn1⟩ : ∃ n, 8 * m1.length = n * p.blocksize :=
+    ⟨8 * m1.length / p.blocksize, by rw [Nat.div_mul_cancel (Nat.dvd_of_mod_eq_zero hm1)]⟩
+  have hpos1 : 0 < m1.length := List.length_pos_iff.mpr hne
+  have hn0 : n1 ≠ 0 := by intro h; rw [h] at hn1; omega
+  obtain ⟨n, rfl⟩ : ∃ n, n1 = n + 1 := ⟨n1 - 1, by omega⟩
+  have hr1 : r1 = ⟨p.loopYields st m1 (8 * m1.length / p.blocksize), { st with bitcnt := st.bitcnt + 8 * m1.length }, none⟩ :=
+    unpadded_run p hv.pos st hflag m1 none (Nat.le_refl _) hm1
+  have hd : 8 * m1.length / p.blocksize = n + 1 := by rw [hn1, Nat.mul_div_cancel _ hv.pos]
+  obtain ⟨hone, htwo⟩ := continuation_empty_eq p hv hap st hflag m1 hm n hn1
+  have hf : r1.final = { st with bitcnt := st.bitcnt + 8 * m1.length } := by rw [hr1]
+  have h2 : r2 = p.iterblocks { st with bitcnt := st.bitcnt + 8 * m1.length } [] none true := by
+    simp only [r2, hf]
+  have h1 : one = p.iterblocks st m1 none true := rfl
+  rw [h1, h2, hone, htwo, hr1, hd, loopYields_succ]
+  simp [hn1]
+
 /-- two unpadded pieces in a row behave like one unpadded call on their concatenation -/
 theorem unpadded_append (p : Padder) (hv : Valid p) (st : PadState) (hflag : st.padflag = false)
     (m1 m2 : List Nat) (hm1 : (8 * m1.length) % p.blocksize = 0) (hm2 : (8 * m2.length) % p.blocksize = 0) :
@@ -276,5 +309,27 @@ theorem unpadded_append (p : Padder) (hv : Valid p) (st : PadState) (hflag : st.
   simp only [effLen, Option.getD_none, e12, hn1, hn2, Nat.mul_div_cancel _ hv.pos,
     loopYields_append p st m1 m2 n1 n2 hlen, and_true, true_and]
   simp [Nat.add_mul, Nat.add_assoc]
+
+/-! ### non-vacuity: the hypotheses are inhabited by the library's real configurations -/
+
+example : Valid ⟨.md 32, 512⟩ := ⟨by decide, by decide, by decide⟩
+example : Valid ⟨.sha 64, 1024⟩ := ⟨by decide, by decide, by decide⟩
+example : Valid (Padder.blakeP 256) := ⟨by decide, by decide, rfl⟩
+example : Valid (Padder.blakeP 384) := ⟨by decide, by decide, rfl⟩
+example : Valid ⟨.pkcs7, 128⟩ := ⟨by decide, by decide, by decide⟩
+example : Valid ⟨.x923, 64⟩ := ⟨by decide, by decide, by decide⟩
+example : Valid ⟨.bit, 8⟩ := ⟨by decide, by decide, trivial⟩
+example : Valid ⟨.null, 3072⟩ := ⟨by decide, by decide, trivial⟩
+example : Valid ⟨.no, 16⟩ := ⟨by decide, by decide, trivial⟩
+example : Bytes [0x61, 0x62, 0x63] := by intro x hx; simp at hx; omega
+example : AlwaysPads (Padder.blakeP 512).scheme := trivial
+example : BitGranular (Model.Scheme.sha 32) := trivial
+/-- FIPS 180-4 §5.1.1's example: "abc" under SHA-1/SHA-256 padding is 61626380 0…0 00000018 (one 64-byte block) -/
+example : ((⟨.sha 32, 512⟩ : Padder).iterblocks {} [0x61, 0x62, 0x63] none true).yields.map (·.1)
+    = [[0x61, 0x62, 0x63, 0x80] ++ List.replicate 59 0 ++ [0x18]] := by decide +kernel
+example : pkcs7WellPadded 8 [1, 2, 3, 3, 3] := ⟨3, rfl, by decide, by decide, by decide, rfl⟩
+example : ¬ pkcs7WellPadded 8 [1, 2, 3, 2, 3] := by
+  rintro ⟨q, h1, _, _, _, h5⟩
+  simp at h1; subst h1; simp at h5
 
 end Proofs.C09
